@@ -57,6 +57,10 @@ type c03Case struct {
 	//           connection ends and the session comes back: the three are sent again in the order in which they were sent
 	//           (whatever the connection has counted up to by then)
 	Tail int `json:"tail,omitempty"`
+	// Owed: a QoS 2 delivery is answered with PUBREC while the broker's writer is blocked (the client has stopped reading
+	//       and a burst of QoS 0 traffic fills the pipe), then the connection ends: the PUBREL is owed to the next
+	//       connection - once - and after PUBCOMP the whole Receive Maximum is available again
+	Owed bool `json:"owed,omitempty"`
 	// AckOrder: run the verif hook of package connection (the identifier freed by an acknowledgement is reused at once)
 	AckOrder bool `json:"ackorder,omitempty"`
 	// Over: the durable session begins by TAKING OVER a connected clean session of the same client id: from the CONNACK
@@ -259,6 +263,101 @@ type c03Out struct {
 }
 
 // long streams: no per-message barrier, the subscriber's log is compressed
+func (p *c03Prop) runOwed(c *c03Case) *c03Obs {
+	obs := &c03Obs{Steps: []c03Step{}}
+	b, err := NewBroker(BrokerOpts{})
+	if err != nil {
+		obs.Err = err.Error()
+		return obs
+	}
+	defer b.Drop()
+	ver := mqttp.ProtocolV50
+	forever := uint32(0xFFFFFFFF)
+	connectS := func(small bool) (*Client, error) {
+		cl := b.Dial()
+		if small {
+			cl = b.DialCap(64)
+		}
+		_, err := cl.Connect(ConnectOpts{ID: "S", Ver: ver, Clean: false, Expiry: &forever, RecvMax: 3})
+		return cl, err
+	}
+	sc, err := connectS(true)
+	if err != nil {
+		obs.Err = "S: " + err.Error()
+		return obs
+	}
+	_ = sc.Send(mkSubscribe(ver, 1, []string{"t"}, []byte{2}))
+	if pk, err := sc.Recv(5 * time.Second); err != nil || pk.Type() != mqttp.SUBACK {
+		obs.Err = "S: no suback"
+		return obs
+	}
+	pc := b.Dial()
+	if _, err := pc.Connect(ConnectOpts{ID: "P", Ver: mqttp.ProtocolV311, Clean: true}); err != nil {
+		obs.Err = "P: " + err.Error()
+		return obs
+	}
+	pa := pc.Auto(false)
+	_ = pa.SendL(mkPublish(mqttp.ProtocolV311, "t", []byte{1}, 2, false, 1))
+	pk, err := sc.Recv(5 * time.Second)
+	m, ok := pk.(*mqttp.Publish)
+	if err != nil || !ok {
+		obs.Err = "S: the QoS 2 message did not arrive"
+		return obs
+	}
+	id, _ := m.ID()
+	// from here on S does not read: a burst of QoS 0 messages blocks the broker's writer in its Write
+	for k := 0; k < 40; k++ {
+		_ = pa.SendL(mkPublish(mqttp.ProtocolV311, "t", make([]byte, 100), 0, false, 0))
+	}
+	time.Sleep(100 * time.Millisecond)
+	_ = sc.Send(mkAck(ver, mqttp.PUBREC, uint16(id)))
+	time.Sleep(100 * time.Millisecond) // the reader takes the PUBREC; the writer cannot get to the PUBREL
+	d0 := b.Met.Disconnected()
+	sc.Close()
+	deadline := time.Now().Add(5 * time.Second)
+	for time.Now().Before(deadline) && b.Met.Disconnected() == d0 {
+		time.Sleep(time.Millisecond)
+	}
+	sc2, err := connectS(false)
+	if err != nil {
+		obs.Err = "S: reconnect: " + err.Error()
+		return obs
+	}
+	// everything the broker owes: read until a PINGRESP
+	_ = sc2.Send(mqttp.NewPingReq(ver))
+	pubrels := 0
+	for {
+		pk, err := sc2.Recv(5 * time.Second)
+		if err != nil {
+			obs.Err = "S: " + err.Error()
+			return obs
+		}
+		if pk.Type() == mqttp.PINGRESP {
+			break
+		}
+		if a, ok := pk.(*mqttp.Ack); ok && a.Type() == mqttp.PUBREL {
+			pubrels++
+			_ = sc2.Send(mkAck(ver, mqttp.PUBCOMP, uint16(id)))
+		}
+	}
+	// nothing in flight now: three QoS 1 messages fit the Receive Maximum of 3 without any acknowledgement
+	for k := 0; k < 3; k++ {
+		_ = pa.SendL(mkPublish(mqttp.ProtocolV311, "t", []byte{byte(10 + k)}, 1, false, uint16(10+k)))
+	}
+	got := 0
+	for got < 3 {
+		pk, err := sc2.Recv(2 * time.Second)
+		if err != nil {
+			break
+		}
+		if pm, ok := pk.(*mqttp.Publish); ok && pm.QoS() == 1 {
+			got++
+		}
+	}
+	obs.Items = [][2]int{{pubrels, got}}
+	return obs
+}
+
 func (p *c03Prop) runLong(c *c03Case) *c03Obs {
 	obs := &c03Obs{Steps: []c03Step{}}
 	b, err := NewBroker(BrokerOpts{})
@@ -461,6 +560,9 @@ func (p *c03Prop) Run(ci interface{}) interface{} {
 	c := ci.(*c03Case)
 	if c.AckOrder {
 		return p.runAckOrder()
+	}
+	if c.Owed {
+		return p.runOwed(c)
 	}
 	if c.Wrap > 0 || c.Bulk > 0 || c.Tail > 0 {
 		return p.runLong(c)
@@ -997,6 +1099,12 @@ func (p *c03Prop) Coq(ci interface{}, oi interface{}) string {
 			}
 		}
 		extra = fmt.Sprintf("(Some (XWrap %s))", cList(it))
+	} else if c.Owed {
+		pr, got := -1, -1
+		if len(o.Items) == 1 {
+			pr, got = o.Items[0][0], o.Items[0][1]
+		}
+		extra = fmt.Sprintf("(Some (XOwed %d%%Z %d%%Z))", pr, got)
 	} else if c.Tail > 0 {
 		ks := make([]string, len(o.Items))
 		for i, x := range o.Items {
@@ -1023,6 +1131,9 @@ func (p *c03Prop) Class(ci interface{}, oi interface{}) (string, bool) {
 	}
 	if c.Tail > 0 {
 		return "unacknowledged-tail-of-a-long-connection", true
+	}
+	if c.Owed {
+		return "pubrel-owed-to-the-next-connection", true
 	}
 	if c.AckOrder {
 		return "ack-frees-identifier-reused-at-once (hook)", true
